@@ -34,6 +34,7 @@ const (
 	spUUpper    = 3
 	spPairLower = 4
 	spPairUpper = 5
+	spMixed     = 6 // \uXxXx (hex digits 1, 3 upper, 2, 4 lower); a pair as \uXXXX\uxxxx
 )
 
 var fixedTok = map[int]string{
@@ -82,6 +83,17 @@ func renderTok(b []byte, t int) []byte {
 				panic("renderer: \\uXXXX spelling of an astral code point")
 			}
 			return uEscape(b, cp, sp == spUUpper)
+		case spMixed:
+			if cp > 0x10FFFF {
+				panic("renderer: code point out of range")
+			}
+			if cp <= 0xFFFF {
+				u := []byte(fmt.Sprintf("%04X", cp))
+				l := []byte(fmt.Sprintf("%04x", cp))
+				return append(b, '\\', 'u', u[0], l[1], u[2], l[3])
+			}
+			hi, lo := 0xD800+(cp-0x10000)/1024, 0xDC00+(cp-0x10000)%1024
+			return uEscape(uEscape(b, hi, true), lo, false)
 		case spPairLower, spPairUpper:
 			if cp < 0x10000 || cp > 0x10FFFF {
 				panic("renderer: surrogate pair spelling of a BMP code point")
